@@ -20,6 +20,9 @@ RULES = {
     "L4": "on every normal path through _process_start_wrapper `self._tty_lock` and `self._cell_size_cache` are assigned "
           "before the wrapped start is called; _process_run_wrapper installs them before the wrapped run; both are patched "
           "into Process at import under `_tty_fd != -1`",
+    "L6": "a multi-step exchange is one critical section: in every function that takes `with _tty_lock, _tty_lock` explicitly, every call "
+          "of a lock_tty-synchronised terminal function (query_terminal/read_tty/write_tty) is inside that with block; and the decision to swap a "
+          "lock in _process_start_wrapper (the isinstance test) is evaluated while holding the lock it swaps",
     "L5": "every terminal-I/O method that UrwidImageScreen overrides (draw_screen, flush, get_available_raw_input, write, ...) is decorated with lock_tty",
 }
 
@@ -161,6 +164,32 @@ def run(ck, m):
             inside = any(isinstance(a, ast.With) and "_cell_size_lock" in _with_items(a) for a in _anc(st))
             ck.ob("L3", st, inside, "`_cell_size_lock` is swapped outside `with _cell_size_lock:`", stmt=f"swap-under-lock: {short(st, 70)}")
 
+    # ---- L6 ---------------------------------------------------------------------------
+    locked_fns = {fn.name for rel, q, fn in m.functions() if rel == U and "lock_tty" in _decorators(fn)}
+    n6 = 0
+    for q, fn in m.file(U).defs.items():
+        if not isinstance(fn, ast.FunctionDef) or q in ("_process_start_wrapper", "lock_tty.lock_tty_wrapper"):
+            continue
+        ws = [n for n in body_walk(fn) if isinstance(n, ast.With) and "_tty_lock" in _with_items(n)]
+        if not ws:
+            continue
+        for c in body_walk(fn):
+            if isinstance(c, ast.Call) and (call_name(c) or "").split(".")[-1] in locked_fns:
+                n6 += 1
+                inside = any(a in ws for a in _anc(c))
+                ck.ob("L6", enclosing_stmt(c), inside,
+                      f"`{short(c, 50)}` is part of {fn.name}'s multi-step terminal exchange but runs outside its `with _tty_lock, _tty_lock` block: another "
+                      f"synchronised reader can be scheduled between the steps and receive part of this caller's reply", stmt=f"{fn.name}: {short(c, 60)} inside the lock block")
+    ck.expect(n6 >= 4, f"expected >= 4 terminal calls inside explicit lock blocks, found {n6}")
+    for t, st in stores_in(ast.Module(body=start.body, type_ignores=[])):
+        if isinstance(t, ast.Name) and t.id in ("_tty_lock", "_cell_size_lock"):
+            lk = t.id
+            for a in _anc(st):
+                if isinstance(a, ast.If) and lk in {n.id for n in ast.walk(a.test) if isinstance(n, ast.Name)}:
+                    under = any(isinstance(x, ast.With) and lk in _with_items(x) for x in _anc(a))
+                    ck.ob("L6", a, under, f"the test `{short(a.test, 50)}` that decides whether `{lk}` is swapped is evaluated before the lock is held (check-then-lock): two racing "
+                          f"Process.start() calls can both pass it and install two different locks", stmt=f"_process_start_wrapper: `{short(a.test, 50)}` under with {lk}")
+
     # ---- L4 ---------------------------------------------------------------------------
     for fn, attrs in ((start, ("_tty_lock", "_cell_size_cache")),):
         g = CFG(fn)
@@ -229,5 +258,6 @@ MUTANTS = [
     M("fg-bg-single", U, "get_fg_bg_colors#3", "with _tty_lock, _tty_lock:", "with _tty_lock:", {"L1"}),
     M("new-writer", "__init__.py", "enable_queries", "        utils._queries_enabled = True\n", "        utils._queries_enabled = True\n        utils._tty_lock = utils.RLock()\n", {"L3"}),
     M("run-wrapper-no-install", U, "_process_run_wrapper", "        _tty_lock = self._tty_lock\n", "        pass\n", {"L4", "L3"}),
+    M("drain-outside-lock", U, "get_terminal_name_version", "        if _queries_enabled:\n            read_tty()  # The rest of the response to DA1\n", "    if _queries_enabled:\n        read_tty()  # The rest of the response to DA1\n", {"L6"}),
     M("twin-comment", U, "lock_tty", "            # logging.debug(f\"{func.__name__} acquired TTY lock\", stacklevel=3)\n", "", twin=True),
 ]
